@@ -99,11 +99,11 @@ theorem uniqueKey_fresh {taken places : List Str} {s k : Str} (h : uniqueKey tak
 
 /-! ### place entries -/
 
-theorem placeEntries_keys_nodup (ps : List Str) : ((placeEntries ps).map (·.1)).Nodup := by
+theorem placeEntriesR_keys_nodup (r ps : List Str) : ((placeEntriesR r ps).map (·.1)).Nodup := by
   induction ps with
-  | nil => simp [placeEntries]
+  | nil => simp [placeEntriesR]
   | cons p ps ih =>
-    simp only [placeEntries, List.map_cons, List.nodup_cons]
+    simp only [placeEntriesR, List.map_cons, List.nodup_cons]
     constructor
     · intro hm
       obtain ⟨kv, hkv, hk⟩ := List.mem_map.mp hm
@@ -111,15 +111,26 @@ theorem placeEntries_keys_nodup (ps : List Str) : ((placeEntries ps).map (·.1))
       simp [hk] at this
     · exact (ih.sublist ((List.filter_sublist).map _))
 
-theorem placeEntries_key (ps : List Str) : ∀ kv ∈ placeEntries ps, kv.1 = sanitize kv.2 := by
+theorem placeEntriesR_key (r ps : List Str) : ∀ kv ∈ placeEntriesR r ps, kv.1 = placeKey r kv.2 := by
   induction ps with
-  | nil => simp [placeEntries]
+  | nil => simp [placeEntriesR]
   | cons p ps ih =>
     intro kv hkv
-    simp only [placeEntries, List.mem_cons] at hkv
+    simp only [placeEntriesR, List.mem_cons] at hkv
     rcases hkv with rfl | hkv
     · rfl
     · exact ih kv (List.mem_filter.mp hkv).1
+
+/-- the key of a place is a candidate of its sanitized name and no reserved key -/
+theorem placeKey_spec (r : List Str) (p : Str) :
+    placeKey r p ∉ r ∧ ∃ i, placeKey r p = candidate (sanitize p) i := by
+  unfold placeKey
+  have hs := uniqueKey_isSome [] r (sanitize p)
+  cases hk : uniqueKey [] r (sanitize p) with
+  | none => simp [hk] at hs
+  | some k =>
+    obtain ⟨_, h2, i, hi⟩ := uniqueKey_fresh hk
+    exact ⟨by simpa using h2, i, by simpa using hi⟩
 
 /-! ### look-ups in a Go map do not depend on the iteration order -/
 
@@ -169,131 +180,88 @@ theorem zipIdx_snd_unique (l : List Str) (k : Nat) :
   obtain ⟨_, _, e2⟩ := hb'
   simp [e1, e2]
 
-/-! ### prefix codes: a per-byte encoding whose code words are not prefixes of each other is
-    injective on strings.  The check runs over `Nat` lists (fast in the kernel). -/
+/-! ### the key of a source pointer can be decoded -/
 
-def isPrefixN : List Nat → List Nat → Bool
-  | [], _ => true
-  | _ :: _, [] => false
-  | a :: as, b :: bs => a == b && isPrefixN as bs
+def hexVal (b : UInt8) : Nat := if b.toNat ≤ 57 then b.toNat - 48 else b.toNat - 87
 
-/-- no element of `l` is a prefix of `x` or has `x` as a prefix -/
-def apartFrom (x : List Nat) (l : List (List Nat)) : Bool :=
-  l.all (fun y => !isPrefixN x y && !isPrefixN y x)
+/-- reads a key back: `_xx` is the byte with that hexadecimal code, any other byte is itself
+    (`skip`: bytes of an escape already read) -/
+def decGo : Nat → Str → Str
+  | _, [] => []
+  | k+1, _ :: t => decGo k t
+  | 0, b :: t =>
+    if b == 95 then
+      match t with
+      | h :: l :: _ => UInt8.ofNat (hexVal h * 16 + hexVal l) :: decGo 2 t
+      | _ => b :: decGo 0 t
+    else b :: decGo 0 t
 
-def prefixFreeN : List (List Nat) → Bool
-  | [] => true
-  | x :: xs => !x.isEmpty && apartFrom x xs && prefixFreeN xs
+def decodeKey (s : Str) : Str := decGo 0 s
 
-def toNats (s : Str) : List Nat := s.map UInt8.toNat
+/-- an entry of the per-byte table is the byte itself (not `_`) or its `_xx` escape -/
+def entryOk (e : Str × Nat) : Bool :=
+  (e.1 == [UInt8.ofNat e.2] && e.2 != 95) || e.1 == [95, hexDigit (e.2 / 16), hexDigit (e.2 % 16)]
 
-/-- the check stated on a byte table -/
-def prefixFree (tbl : List Str) : Bool := prefixFreeN (tbl.map toNats)
+def tableOk (tbl : List Str) : Bool := tbl.length == 256 && tbl.zipIdx.all entryOk
 
-theorem isPrefixN_iff (a b : List Nat) : isPrefixN a b = true ↔ ∃ t, b = a ++ t := by
-  induction a generalizing b with
-  | nil => simp [isPrefixN]
-  | cons x xs ih =>
-    cases b with
-    | nil => simp [isPrefixN]
-    | cons y ys =>
-      simp only [isPrefixN, Bool.and_eq_true, beq_iff_eq, ih, List.cons_append, List.cons.injEq]
-      constructor
-      · rintro ⟨rfl, t, rfl⟩; exact ⟨t, rfl, rfl⟩
-      · rintro ⟨t, rfl, rfl⟩; exact ⟨rfl, t, rfl⟩
+theorem hexVal_hexDigit : ∀ d, d < 16 → hexVal (hexDigit d) = d := by decide
 
-theorem prefix_of_append_eq (a b x y : List Nat) (h : a ++ x = b ++ y) :
-    isPrefixN a b = true ∨ isPrefixN b a = true := by
-  rcases List.append_eq_append_iff.mp h with ⟨t, rfl, _⟩ | ⟨t, rfl, _⟩
-  · exact Or.inl ((isPrefixN_iff _ _).mpr ⟨t, rfl⟩)
-  · exact Or.inr ((isPrefixN_iff _ _).mpr ⟨t, rfl⟩)
+theorem decode_escape (c : Nat) (hc : c < 256) (rest : Str) :
+    decodeKey (95 :: hexDigit (c / 16) :: hexDigit (c % 16) :: rest) = UInt8.ofNat c :: decodeKey rest := by
+  unfold decodeKey
+  simp only [decGo, beq_self_eq_true, if_true]
+  rw [hexVal_hexDigit _ (by omega), hexVal_hexDigit _ (Nat.mod_lt _ (by omega))]
+  congr 2
+  omega
 
-theorem prefixFree_get (l : List (List Nat)) (h : prefixFreeN l = true) (i j : Nat) (a b : List Nat)
-    (ha : l[i]? = some a) (hb : l[j]? = some b) (hp : isPrefixN a b = true) : i = j := by
-  induction l generalizing i j with
-  | nil => simp at ha
-  | cons x xs ih =>
-    simp only [prefixFreeN, Bool.and_eq_true] at h
-    obtain ⟨⟨_, hx⟩, hxs⟩ := h
-    unfold apartFrom at hx
-    rw [List.all_eq_true] at hx
-    cases i with
-    | zero =>
-      cases j with
-      | zero => rfl
-      | succ j =>
-        simp at ha hb; subst ha
-        have := hx b (List.mem_of_getElem? hb)
-        simp [hp] at this
-    | succ i =>
-      cases j with
-      | zero =>
-        simp at ha hb; subst hb
-        have := hx a (List.mem_of_getElem? ha)
-        simp [hp] at this
-      | succ j =>
-        simp at ha hb
-        exact congrArg (· + 1) (ih hxs i j ha hb)
+theorem decode_raw (b : UInt8) (hb : b ≠ 95) (rest : Str) : decodeKey (b :: rest) = b :: decodeKey rest := by
+  unfold decodeKey
+  have : (b == 95) = false := by simpa using hb
+  simp [decGo, this]
 
-theorem prefixFree_ne_nil (l : List (List Nat)) (h : prefixFreeN l = true) : ∀ x ∈ l, x ≠ [] := by
-  induction l with
-  | nil => simp
-  | cons x xs ih =>
-    simp only [prefixFreeN, Bool.and_eq_true] at h
-    intro y hy
-    rcases List.mem_cons.mp hy with rfl | hy
-    · intro e; simp [e] at h
-    · exact ih h.2 y hy
+theorem tableOk_get (tbl : List Str) (h : tableOk tbl = true) (c : UInt8) :
+    entryOk (tbl.getD c.toNat [c], c.toNat) = true := by
+  unfold tableOk at h
+  simp only [Bool.and_eq_true, beq_iff_eq] at h
+  have hlt : c.toNat < tbl.length := by rw [h.1]; exact UInt8.toNat_lt c
+  have hall := List.all_eq_true.mp h.2
+  apply hall
+  rw [List.mem_iff_getElem?]
+  refine ⟨c.toNat, ?_⟩
+  simp [List.getElem?_zipIdx, List.getD, List.getElem?_eq_getElem hlt]
 
-theorem toNats_injective (a b : Str) (h : toNats a = toNats b) : a = b := by
-  induction a generalizing b with
-  | nil => cases b <;> simp [toNats] at h ⊢
-  | cons x xs ih =>
-    cases b with
-    | nil => simp [toNats] at h
-    | cons y ys =>
-      simp only [toNats, List.map_cons, List.cons.injEq] at h
-      rw [UInt8.toNat_inj.mp h.1, ih ys h.2]
+theorem decode_entry (tbl : List Str) (h : tableOk tbl = true) (c : UInt8) (rest : Str) :
+    decodeKey (tbl.getD c.toNat [c] ++ rest) = c :: decodeKey rest := by
+  have he := tableOk_get tbl h c
+  unfold entryOk at he
+  simp only [Bool.or_eq_true, Bool.and_eq_true, beq_iff_eq, bne_iff_ne, ne_eq] at he
+  rcases he with ⟨he, hne⟩ | he
+  · rw [he]
+    have hc : UInt8.ofNat c.toNat = c := by simp
+    rw [hc]
+    have : c ≠ 95 := by
+      intro e; apply hne; rw [e]; rfl
+    simpa using decode_raw c this rest
+  · rw [he]
+    have := decode_escape c.toNat (UInt8.toNat_lt c) rest
+    simpa using this
 
-theorem toNats_append (a b : Str) : toNats (a ++ b) = toNats a ++ toNats b := by simp [toNats]
+theorem decode_flatMap (tbl : List Str) (h : tableOk tbl = true) (p : Str) :
+    decodeKey (p.flatMap (fun c => tbl.getD c.toNat [c])) = p := by
+  induction p with
+  | nil => simp [decodeKey, decGo]
+  | cons c cs ih =>
+    simp only [List.flatMap_cons]
+    rw [decode_entry tbl h c, ih]
 
-/-- a per-byte encoding through a complete prefix-free table is injective -/
-theorem flatMap_table_injective (tbl : List Str) (hl : tbl.length = 256) (hf : prefixFree tbl = true)
-    (a b : Str) (h : a.flatMap (fun c => tbl.getD c.toNat [c]) = b.flatMap (fun c => tbl.getD c.toNat [c])) :
-    a = b := by
-  have hget : ∀ c : UInt8, (tbl.map toNats)[c.toNat]? = some (toNats (tbl.getD c.toNat [c])) := by
-    intro c
-    have : c.toNat < tbl.length := by rw [hl]; exact UInt8.toNat_lt c
-    simp [List.getD, List.getElem?_eq_getElem this]
-  unfold prefixFree at hf
-  induction a generalizing b with
-  | nil =>
-    cases b with
-    | nil => rfl
-    | cons y ys =>
-      exfalso
-      simp only [List.flatMap_nil, List.flatMap_cons] at h
-      have hne := prefixFree_ne_nil _ hf _ (List.mem_of_getElem? (hget y))
-      have := (List.append_eq_nil_iff.mp h.symm).1
-      exact hne (by rw [this]; rfl)
-  | cons x xs ih =>
-    cases b with
-    | nil =>
-      exfalso
-      simp only [List.flatMap_nil, List.flatMap_cons] at h
-      have hne := prefixFree_ne_nil _ hf _ (List.mem_of_getElem? (hget x))
-      exact hne (by rw [(List.append_eq_nil_iff.mp h).1]; rfl)
-    | cons y ys =>
-      simp only [List.flatMap_cons] at h
-      have h' := congrArg toNats h
-      rw [toNats_append, toNats_append] at h'
-      have hxy : x.toNat = y.toNat := by
-        rcases prefix_of_append_eq _ _ _ _ h' with hp | hp
-        · exact prefixFree_get _ hf _ _ _ _ (hget x) (hget y) hp
-        · exact (prefixFree_get _ hf _ _ _ _ (hget y) (hget x) hp).symm
-      have hxy' : x = y := UInt8.toNat_inj.mp hxy
-      subst hxy'
-      rw [List.append_cancel_left_eq] at h
-      rw [ih ys h]
+theorem decode_escapeFirst (k : Str) (hk : k.head? ≠ some 95) : decodeKey (escapeFirst k) = decodeKey k := by
+  cases k with
+  | nil => rfl
+  | cons b t =>
+    simp only [escapeFirst]
+    rw [decode_escape b.toNat (UInt8.toNat_lt b) t]
+    have hb : b ≠ 95 := by intro e; apply hk; simp [e]
+    rw [decode_raw b hb t]
+    simp
 
 end Gedcom.Publish
